@@ -892,6 +892,170 @@ func (x *startupSup) awaitRun(b *strings.Builder) {
 	b.WriteString("def runCancelCallers : List String := [" + strings.Join(callers, ", ") + "]\n\n")
 }
 
+// ---------------------------------------------------------------- Engine.Run: when the engine returns (and so cancels every pool)
+
+func (x *startupSup) startupEngInt(e ast.Expr, iName string) string {
+	switch v := e.(type) {
+	case *ast.ParenExpr:
+		return x.startupEngInt(v.X, iName)
+	case *ast.Ident:
+		if v.Name == iName {
+			return "i"
+		}
+	case *ast.BasicLit:
+		if v.Kind == token.INT {
+			return "(" + v.Value + " : Int)"
+		}
+	case *ast.CallExpr:
+		if strings.HasPrefix(x.src(v), "len(") && strings.HasSuffix(x.src(v), ".config.Pools)") {
+			return "nPools"
+		}
+	case *ast.BinaryExpr:
+		if v.Op == token.ADD || v.Op == token.SUB {
+			return "(" + x.startupEngInt(v.X, iName) + " " + v.Op.String() + " " + x.startupEngInt(v.Y, iName) + ")"
+		}
+	}
+	return x.fail(e, "engine loop bound %s", x.src(e))
+}
+
+// startupEngBody: what a statement list of the await loop of Engine.Run does: "ret:<EngRet>" when every path returns, "" when it
+// falls through
+func (x *startupSup) startupEngBody(stmts []ast.Stmt, resName string, failedCtx bool) string {
+	for _, st := range stmts {
+		switch v := st.(type) {
+		case *ast.ExprStmt:
+			if x.isLogCall(v.X) {
+				continue
+			}
+		case *ast.ReturnStmt:
+			if len(v.Results) == 1 {
+				r := x.src(v.Results[0])
+				switch {
+				case r == "nil":
+					return "EngRet.ok"
+				case strings.HasSuffix(r, ".Err()"):
+					return "EngRet.cancelled"
+				case failedCtx:
+					return "EngRet.failed"
+				}
+			}
+		case *ast.SelectStmt:
+			// `select { case <-ctx.Done(): return ctx.Err(); default: }` inside the error branch: which error is returned, not whether
+			continue
+		case *ast.IfStmt:
+			if v.Init == nil && v.Else == nil && x.src(v.Cond) == resName+".Err != nil" {
+				inner := x.startupEngBody(v.Body.List, resName, true)
+				if inner == "" {
+					x.fail(st, "the error branch of the engine's await loop does not return")
+					return ""
+				}
+				rest := x.startupEngBody(stmts[startupIndexOfStmt(stmts, st)+1:], resName, failedCtx)
+				if rest == "" {
+					rest = "CONTINUE"
+				}
+				return "IF " + inner + " ELSE " + rest
+			}
+		}
+		x.fail(st, "statement of the engine's await loop %s", x.src(st))
+		return ""
+	}
+	return ""
+}
+
+func startupIndexOfStmt(stmts []ast.Stmt, st ast.Stmt) int {
+	for i, s := range stmts {
+		if s == st {
+			return i
+		}
+	}
+	return -1
+}
+
+func (x *startupSup) engineRun(b *strings.Builder) {
+	fd := startupFindMethod(x.pkg, "Engine", "Run")
+	if fd == nil {
+		x.t.errs = append(x.t.errs, "method (*Engine).Run not found")
+		return
+	}
+	var loop *ast.ForStmt
+	var after []ast.Stmt
+	for i, st := range fd.Body.List {
+		if f, ok := st.(*ast.ForStmt); ok && f.Init != nil && f.Cond != nil {
+			if _, isSel := f.Body.List[0].(*ast.SelectStmt); isSel && len(f.Body.List) == 1 {
+				loop = f
+				after = fd.Body.List[i+1:]
+			}
+		}
+	}
+	if loop == nil {
+		x.fail(fd, "Engine.Run: await loop `for i := 0; i < len(e.config.Pools); i++ { select {…} }` not found")
+		return
+	}
+	iName := ""
+	if as, ok := loop.Init.(*ast.AssignStmt); ok && len(as.Lhs) == 1 && len(as.Rhs) == 1 && x.src(as.Rhs[0]) == "0" {
+		iName = x.src(as.Lhs[0])
+	}
+	inc, isInc := loop.Post.(*ast.IncDecStmt)
+	if iName == "" || !isInc || inc.Tok != token.INC || x.src(inc.X) != iName {
+		x.fail(loop, "Engine.Run: loop header")
+		return
+	}
+	cond := ""
+	if be, ok := loop.Cond.(*ast.BinaryExpr); ok {
+		op := map[token.Token]string{token.LSS: "<", token.LEQ: "≤", token.NEQ: "≠"}[be.Op]
+		if op != "" {
+			cond = "(" + x.startupEngInt(be.X, iName) + " " + op + " " + x.startupEngInt(be.Y, iName) + ")"
+		}
+	}
+	if cond == "" {
+		x.fail(loop.Cond, "Engine.Run: loop condition %s", x.src(loop.Cond))
+		return
+	}
+	resCase, doneCase := "", ""
+	for _, cl := range loop.Body.List[0].(*ast.SelectStmt).Body.List {
+		cc := cl.(*ast.CommClause)
+		switch c := cc.Comm.(type) {
+		case *ast.AssignStmt:
+			if len(c.Rhs) == 1 && x.src(c.Rhs[0]) == "<-runRes" {
+				resCase = x.startupEngBody(cc.Body, x.src(c.Lhs[0]), false)
+				if resCase == "" {
+					resCase = "CONTINUE"
+				}
+				continue
+			}
+		case *ast.ExprStmt:
+			if x.src(c.X) == "<-ctx.Done()" {
+				doneCase = x.startupEngBody(cc.Body, "", false)
+				continue
+			}
+		}
+		x.fail(cl, "Engine.Run: select case")
+	}
+	afterRet := x.startupEngBody(after, "", false)
+	if resCase == "" || doneCase == "" || afterRet == "" || strings.Contains(doneCase, "IF") {
+		x.fail(fd, "Engine.Run: shape of the await loop (result case / ctx.Done case / return after the loop)")
+		return
+	}
+	ret := func(r string) string { return "{ awaited := i, ret := some " + r + " }" }
+	leaf := func(s string) string {
+		if s == "CONTINUE" {
+			return "engineRun nPools (i + 1) rest"
+		}
+		return ret(s)
+	}
+	resLean := ""
+	if strings.HasPrefix(resCase, "IF ") {
+		parts := strings.SplitN(strings.TrimPrefix(resCase, "IF "), " ELSE ", 2)
+		resLean = "if !errNil then " + leaf(parts[0]) + " else " + leaf(parts[1])
+	} else {
+		resLean = leaf(resCase)
+	}
+	b.WriteString("/-- regenerated from `core/engine/engine.go` `(*Engine).Run`: the loop that awaits the pools, as a function of the number of\npools and of what its successive iterations receive (a pool result with or without error, or the engine context done);\nreturning — with any result — cancels the context of EVERY pool (the deferred `cancel()`) -/\n")
+	b.WriteString("def engineRun (nPools : Int) (i : Int) : List EngEv → EngRes\n")
+	b.WriteString("  | [] => if " + cond + " then { awaited := i, ret := none } else " + ret(afterRet) + "\n")
+	b.WriteString("  | ev :: rest =>\n    if " + cond + " then\n      match ev with\n      | EngEv.result errNil => " + resLean + "\n      | EngEv.ctxDone => " + ret(doneCase) + "\n    else " + ret(afterRet) + "\n\n")
+}
+
 // ---------------------------------------------------------------- the counters of the await loop
 
 // startupCaseOf finds `case <res> := <-<recv>.<ch>:` in fd
@@ -1521,6 +1685,7 @@ func startupExtra(t *tr) string {
 		x.awaitCounters(&b)
 		x.finishCallback(&b, builderArgs)
 	}
+	x.engineRun(&b)
 	x.passThrough(&b)
 	x.coreutilPart(&b)
 	x.instanceRun(&b)
